@@ -354,10 +354,13 @@ async fn keepalive(sink: MqttSink, timeout: Seconds) {
     loop {
         sleep(keepalive).await;
 
-        if !sink.is_open() || !sink.ping() {
+        if !sink.is_open() {
             // connection is closed
             log::debug!("mqtt client connection is closed, stopping keep-alive task");
             break;
         }
+        // ping cannot be written while a streamed publish owes its payload,
+        // connection is still alive, try on next tick
+        let _ = sink.ping();
     }
 }
